@@ -56,6 +56,30 @@ def mapped_list(g, rn, v, rec_name):
     return None
 
 
+def mapped_dict(g, rn, v, rec_name):
+    """`v` is a local bound to `{}` and filled only by `v[key] = rec(value, ...)` in `for key, value in obj.items()`"""
+    if not isinstance(v, ast.Name):
+        return False
+    defs = prov.rd_of(g).get(rn.id, {}).get(v.id, ())
+    dn = [g.nodes[i] for i in defs]
+    if not (len(dn) == 1 and dn[0].kind == "stmt" and isinstance(dn[0].ast, ast.Assign) and dump(dn[0].ast.value) in ("{}", "dict()")):
+        return False
+    stores = [n for n in g.live_nodes() if n.kind == "stmt" and isinstance(n.ast, ast.Assign) and
+              any(isinstance(t, ast.Subscript) and dump(t.value) == v.id for t in n.ast.targets)]
+    other = [n for n in g.live_nodes() for c in node_calls(n) if isinstance(c.func, ast.Attribute) and dump(c.func.value) == v.id]
+    if len(stores) != 1 or other:
+        return False
+    n = stores[0]
+    loops = [l for l in g.live_nodes() if l.kind == "for_body" and dump(l.ast.iter) == "obj.items()" and
+             any(sub is n.ast for st_ in l.ast.body for sub in ast.walk(st_))]
+    if len(loops) != 1 or len(loops[0].ast.body) != 1 or not isinstance(loops[0].ast.target, ast.Tuple) or len(loops[0].ast.target.elts) != 2:
+        return False
+    k_, v_ = [dump(e) for e in loops[0].ast.target.elts]
+    val = n.ast.value
+    return len(n.ast.targets) == 1 and dump(n.ast.targets[0].slice) == k_ and isinstance(val, ast.Call) and dump(val.func) == rec_name \
+        and bool(val.args) and dump(val.args[0]) == v_
+
+
 def check(ck):
     prog = ck.prog
     fdump = prog.func("jsonclass", "dump")
@@ -152,6 +176,9 @@ def check(ck):
                 ck.require(t == ("param", "obj"), "C15.4", "%s: primitive branch `%s`" % (q.fn(fi), q.stmt_text(rn)),
                            "returns the argument itself", "a primitive is returned as %s instead of itself: its exact type/value is not preserved"
                            % prov.show(t), q.loc(fi, rn))
+            elif mapped_dict(g, rn, v, rec_name):
+                kind = "dict"
+                ck.ok("C15.2", "%s: dict built by a store loop over obj.items()" % q.fn(fi), "same keys, each value passed through %s" % rec_name, q.loc(fi, rn))
             elif mapped_list(g, rn, v, rec_name) == "loop":
                 kind = "list"
                 ck.ok("C15.2", "%s: list built by an append loop over obj" % q.fn(fi), "each item passed through %s" % rec_name, q.loc(fi, rn))
